@@ -455,8 +455,8 @@ def dump_one(f: TextIO, data: IOData):
 
     # write nuclear names, atomic numbers, and nuclear charges
     # add ghost atom, represented by Bq and atomic number 0
-    num2sym.update({0: "Bq"})
-    nuclear_names = [f" {num2sym[num]}{index + 1}" for index, num in enumerate(data.atcorenums)]
+    symbols = {**num2sym, 0: "Bq"}  # local copy: the periodic table itself must not be modified
+    nuclear_names = [f" {symbols[num]}{index + 1}" for index, num in enumerate(data.atcorenums)]
     _write_xml_iterator(tag=lbs["nuclear_names"], info=nuclear_names, file=f)
     _write_xml_iterator(tag=lbs["atnums"], info=data.atnums, file=f)
     _write_xml_iterator_scientific(tag=lbs["nuclear_charge"], info=data.atcorenums, file=f)
